@@ -87,8 +87,7 @@ def task(t):
             bad = ab * T.Q(2 * ss / sw) + 1
             res, _ = sv.check([box] + th.cons + o.pc + [f for _, f in th.side] + [z3.Not(T.zabs(r.term - bad) <= T.Q(tol.K64 * tol.U) * (T.zabs(bad) + 1))])
             R.vacuity.append("%s canary (wrong spec 2T+1): %s" % (pair, res))
-            if res != "sat":
-                R.inconclusive.append("%s: canary not refuted" % pair)
+            E.canary_verdict(R, sv, pair, res, [box] + th.cons + o.pc, [f for _, f in th.side] if be == "dec" else [])
         # ---------------- reference forms return the same thing (T_uf)
         if forms:
             th = T.TUf(be, total=True)
